@@ -185,7 +185,62 @@ class ExpandAugAssign(ast.NodeTransformer):
         return node
 
 
+class ElseAfterJump(ast.NodeTransformer):
+    """inside functions `if c: ...; return` followed by the rest of the block becomes `if c: ...; return` / `else: rest`"""
+
+    def __init__(self):
+        self.depth = 0
+
+    def visit_FunctionDef(self, node):
+        self.depth += 1
+        self.generic_visit(node)
+        self.depth -= 1
+        return node
+
+    def visit_ClassDef(self, node):
+        saved, self.depth = self.depth, 0
+        self.generic_visit(node)
+        self.depth = saved
+        return node
+
+    def generic_visit(self, node):
+        super().generic_visit(node)
+        if self.depth:
+            for field in ('body', 'orelse', 'finalbody'):
+                v = getattr(node, field, None)
+                if isinstance(v, list) and v and isinstance(v[0], ast.stmt):
+                    setattr(node, field, self._block(v))
+        return node
+
+    def _block(self, stmts):
+        for i, st in enumerate(stmts[:-1]):
+            if isinstance(st, ast.If) and not st.orelse and isinstance(st.body[-1], (ast.Return, ast.Raise, ast.Continue, ast.Break)):
+                st.orelse = self._block(stmts[i + 1:])
+                return stmts[: i + 1]
+        return stmts
+
+
+class NegateAndSwap(ast.NodeTransformer):
+    """`if c: A else: B` becomes `if not c: B else: A` (`is` / `==` / `in` use their negative operator)"""
+
+    def visit_If(self, node):
+        self.generic_visit(node)
+        if node.orelse and not (len(node.orelse) == 1 and isinstance(node.orelse[0], ast.If)):
+            t = node.test
+            swap = {ast.Is: ast.IsNot, ast.Eq: ast.NotEq, ast.In: ast.NotIn, ast.IsNot: ast.Is, ast.NotEq: ast.Eq, ast.NotIn: ast.In}
+            if isinstance(t, ast.Compare) and len(t.ops) == 1 and type(t.ops[0]) in swap:
+                node.test = ast.Compare(left=t.left, ops=[swap[type(t.ops[0])]()], comparators=t.comparators)
+            elif isinstance(t, ast.UnaryOp) and isinstance(t.op, ast.Not):
+                node.test = t.operand
+            else:
+                node.test = ast.UnaryOp(op=ast.Not(), operand=t)
+            node.body, node.orelse = node.orelse, node.body
+        return node
+
+
 TRANSFORMS = {
+    'else-after-jump': lambda: ElseAfterJump(),
+    'negate-and-swap': lambda: NegateAndSwap(),
     'return-via-local': lambda: ReturnViaLocal(),
     'inline-message': lambda: InlineMessage(),
     'expand-augassign': lambda: ExpandAugAssign(),
